@@ -205,7 +205,10 @@ def ws_reader(facts, R):
         args = [render(s.op(a)) for a in t["args"]]
         hidx = 0 if mode == "Inline" else 2
         nidx = 3 if mode == "Inline" else 4
-        R.check("as Dispatch).handler" in args[hidx] and "as Dispatch).notify" in args[nidx], "handler-once", path, "%s gets the routed handler and notify flag" % t["callee"]["name"],
+        by_pos = len(args) > max(hidx, nidx) and "as Dispatch).handler" in args[hidx] and "as Dispatch).notify" in args[nidx]
+        # a private callee may have gained or lost a parameter: what matters is that exactly this frame's handler and flag are passed
+        by_content = sum(1 for a in args if a.endswith("as Dispatch).handler")) == 1 and sum(1 for a in args if a.endswith("as Dispatch).notify")) == 1
+        R.check(by_pos or by_content, "handler-once", path, "%s gets the routed handler and notify flag" % t["callee"]["name"],
                 "args: %s" % [a[-40:] for a in args], t.get("span"))
     sends = [(i, t) for i, t in b.calls() if t["callee"]["name"] == "send" and render(s.op(t["args"][0])).endswith("outbound_tx")]
     R.check(len(sends) == 2, "response-count", path, "two enqueue sites (reject, inline)", "found %d outbound sends" % len(sends), b.span)
